@@ -20,6 +20,17 @@ Definition wf_frame (f : frame) : Prop :=
 Lemma enc_hdr_nonempty h : exists a b r, enc_hdr h = a :: b :: r.
 Proof. unfold enc_hdr. cbn [app]. eauto. Qed.
 
+Lemma hdr_len_enc h x : h_plen h < 9223372036854775808 -> hdr_len (enc_hdr h ++ x) h = length (enc_hdr h).
+Proof. intro Hp. rewrite enc_hdr_length. unfold enc_hdr. cbn [app hdr_len]. rewrite enc_b1_mod128. unfold ext_len.
+  destruct (N.ltb_spec 65535 (h_plen h)); destruct (N.ltb_spec 125 (h_plen h)); destruct (N.leb_spec (h_plen h) 125); destruct (N.leb_spec (h_plen h) 65535); try lia.
+  - reflexivity.
+  - reflexivity.
+  - destruct (N.eqb_spec (h_plen h) 126); [lia|]. destruct (N.eqb_spec (h_plen h) 127); [lia|]. reflexivity. Qed.
+
+Lemma take_N_app (a b : bytes) : take_N (a ++ b) (N.of_nat (length a)) = Some (a, b).
+Proof. rewrite take_N_spec. rewrite app_length. destruct (N.leb_spec (N.of_nat (length a)) (N.of_nat (length a + length b))); [|lia].
+  rewrite Nat2N.id. rewrite firstn_app_exact by reflexivity. rewrite skipn_app_exact by reflexivity. reflexivity. Qed.
+
 Lemma parse_enc_frames : forall fs fuel, Forall wf_frame fs ->
   (length (concat (map enc_frame fs)) < fuel)%nat ->
   parse_frames fuel (concat (map enc_frame fs)) = (map to_pf fs, PClean).
@@ -37,14 +48,11 @@ Proof.
     destruct (enc_hdr h ++ body ++ rest) as [|x0 l0] eqn:EI; [rewrite E in EI; discriminate|].
     rewrite <- EI.
     rewrite dec_enc by assumption.
-    rewrite app_length.
-    destruct (N.ltb_spec (N.of_nat (length body + length rest)) (h_plen h)) as [Hlt|_]; [lia|].
-    rewrite Hl, Nat2N.id. rewrite <- Lb.
-    rewrite firstn_app_exact by reflexivity. rewrite skipn_app_exact by reflexivity.
+    rewrite Hl, <- Lb, take_N_app.
     rewrite IH; [| assumption |].
     + f_equal. f_equal. unfold to_pf. cbn [fst snd]. f_equal.
       * unfold body. destruct (h_masked h); [apply mask_involution|reflexivity].
-      * rewrite !app_length. lia.
+      * apply hdr_len_enc. destruct Hh as (_ & Hh & _). exact Hh.
     + cbn [map concat] in Hf. fold rest in Hf. unfold enc_frame in Hf. rewrite !app_length in Hf. rewrite E in Hf. cbn [length] in Hf. lia.
 Qed.
 
